@@ -194,3 +194,52 @@ Proof.
   - destruct Hrb as (f' & noc & icac & H1 & H2 & H3 & H4). exists f', noc, icac. rewrite Hf, Hp, Hc. auto.
   - exists r. auto.
 Qed.
+
+(* ------------------------------------------------------------------ one record per peer *)
+
+(** [insert_or_update] supersedes: afterwards the only record for that (fabric, peer) is the new one *)
+Lemma insert_or_update_supersedes : forall l r x,
+  In x (insert_or_update l r) -> r_fab x = r_fab r -> r_peer x = r_peer r -> x = r.
+Proof.
+  intros l r x H Hf Hp. unfold insert_or_update in H. apply in_app_or in H. destruct H as [H|[H|[]]]; [|auto].
+  exfalso.
+  assert (Hx : In x (filter (fun y => negb ((r_fab y =? r_fab r) && (r_peer y =? r_peer r))) l)).
+  { destruct (Nat.leb MAX_RECORDS _) in H; [apply in_tl in H|]; exact H. }
+  apply filter_In in Hx. destruct Hx as [_ Hx]. rewrite Hf, Hp, !N.eqb_refl in Hx. discriminate.
+Qed.
+
+(** Whenever a responder handler (any message sequence) leaves a new operational session [s], EVERY record of
+    the resumption cache for (s's fabric, s's peer) afterwards carries s's CATs: a full handshake replaces the
+    earlier record of that peer, a resumption only rotates its id.  So a later resumption can only give the CATs
+    of the certificate validated LAST for that peer. *)
+Theorem session_supersedes_records : forall st fr ms st' rs' out s,
+  node_wf st -> resp_run st RIdle fr ms = (st', rs', out) ->
+  n_sessions st' = n_sessions st ++ [s] -> s_reserved s = false ->
+  forall x, In x (n_cache st') -> r_fab x = s_fab s -> r_peer x = s_peer s -> r_cats x = s_cats s.
+Proof.
+  intros st fr ms st' rs' out s Hwf Hrun Hs Hres x Hin Hf Hp.
+  destruct (responder_run_sound st fr ms st' rs' out Hwf Hrun) as (_ & _ & Hc).
+  destruct Hc as [(E & _)|[(y & E & Hy & _)|[(s0 & m1 & m3 & rest & rid & sec & f & _ & E & _ & _ & _ & Hc)|(s0 & m1 & mf & rest & r & nr & _ & E & _ & _ & _ & _ & _ & Hf0 & Hp0 & Hc0 & Hc)]]].
+  - exfalso. rewrite Hs in E. apply (f_equal (@length session)) in E. rewrite app_length in E. cbn in E. lia.
+  - exfalso. rewrite Hs in E. apply app_inj_tail in E. destruct E as [_ E]. congruence.
+  - rewrite Hs in E. apply app_inj_tail in E. destruct E as [_ <-]. rewrite Hc in Hin.
+    apply insert_or_update_supersedes in Hin; [subst x; reflexivity|exact Hf|exact Hp].
+  - rewrite Hs in E. apply app_inj_tail in E. destruct E as [_ <-]. rewrite Hc in Hin.
+    apply insert_or_update_supersedes in Hin; cbn [r_fab r_peer]; [subst x; cbn; congruence|congruence|congruence].
+Qed.
+
+(** the same for the initiator after a full handshake *)
+Theorem initiator_session_supersedes_records : forall st fr fab peer ms st' out s,
+  node_wf st ->
+  init_run (io_node (init_start st fr fab peer)) (io_state (init_start st fr fab peer)) ms = (st', IDone true, out) ->
+  n_sessions st' = n_sessions st ++ [s] ->
+  forall x, In x (n_cache st') -> r_fab x = s_fab s -> r_peer x = s_peer s -> r_cats x = s_cats s.
+Proof.
+  intros st fr fab peer ms st' out s Hwf Hrun Hs x Hin Hf Hp.
+  destruct (initiator_run_sound st fr fab peer ms st' (IDone true) out Hwf Hrun) as (_ & _ & Hc).
+  destruct Hc as [(_ & _ & E)|[(y & E & _ & _ & Hab & _)|[(s0 & m1 & m2 & mst & rest & rid & sec & _ & _ & E & _ & _ & _ & _ & Hc)|(s0 & m2 & rest & r & nr & _ & _ & E & _)]]]; try discriminate.
+  - exfalso. cbn [init_abort] in Hab. rewrite E in Hab. apply (f_equal (@length session)) in Hab.
+    rewrite app_length in Hab. cbn in Hab. lia.
+  - rewrite Hs in E. apply app_inj_tail in E. destruct E as [_ <-]. rewrite Hc in Hin.
+    apply insert_or_update_supersedes in Hin; [subst x; reflexivity|exact Hf|exact Hp].
+Qed.
